@@ -866,6 +866,20 @@ func init() {
 				for i := rng.Intn(4); i > 0; i-- {
 					l = append(l, toAny1(lits[rng.Intn(len(lits))]))
 				}
+				// a list of records, some of which lack a field that the next one has: a quantifier whose statement looks at
+				// the field through an optional selector sees "no data" on some elements and a value on others, in either order
+				if rng.Intn(3) == 0 {
+					l = []any{}
+					for i := 1 + rng.Intn(3); i > 0; i-- {
+						fs := []any{}
+						for _, k := range []string{"a", "b"} {
+							if rng.Intn(2) == 0 {
+								fs = append(fs, []any{toAny(stringToCps(k)), toAny1(lits[rng.Intn(4)])})
+							}
+						}
+						l = append(l, []any{"map", fs})
+					}
+				}
 				add("l", []any{"list", l})
 			}
 			if rng.Intn(2) == 0 {
@@ -882,6 +896,38 @@ func init() {
 		for it := 0; it < n; it++ {
 			st := genStmt(3)
 			dj := genData()
+			var djRev []any // the same datum with the elements of the quantified list in the opposite order (forced events only)
+			if it%8 == 3 {
+				// forced: a quantifier over a list of records whose statement reads a field through an optional selector, below
+				// not / and / or (the order of the elements - with the field, without it - is not to matter)
+				leaf := stmt{Op: []string{"==", "<", ">="}[rng.Intn(3)], Sel: stringToCps([]string{".a?", ".b?"}[rng.Intn(2)]), Val: lits[rng.Intn(3)]}
+				q := stmt{Op: []string{"any", "all"}[rng.Intn(2)], Sel: stringToCps([]string{".l", ".l?", ".l[]"}[rng.Intn(3)]), S: &leaf}
+				switch rng.Intn(4) {
+				case 0, 1:
+					st = stmt{Op: "not", S: &q}
+				case 2:
+					o := stmt{Op: "==", Sel: stringToCps([]string{".a", ".b?", ".s"}[rng.Intn(3)]), Val: lits[rng.Intn(3)]}
+					st = stmt{Op: "not", S: &stmt{Op: "or", SS: []stmt{o, q}}}
+				default:
+					st = q
+				}
+				l := []any{}
+				for i := 2 + rng.Intn(2); i > 0; i-- {
+					fs := []any{}
+					for _, k := range []string{"a", "b"} {
+						if rng.Intn(2) == 0 {
+							fs = append(fs, []any{toAny(stringToCps(k)), toAny1(lits[rng.Intn(3)])})
+						}
+					}
+					l = append(l, []any{"map", fs})
+				}
+				dj = []any{"map", []any{[]any{toAny(stringToCps("l")), toAny1([]any{"list", l})}}}
+				lr := []any{}
+				for i := len(l) - 1; i >= 0; i-- {
+					lr = append(lr, l[i])
+				}
+				djRev = []any{"map", []any{[]any{toAny(stringToCps("l")), toAny1([]any{"list", lr})}}}
+			}
 			d, err := nodeOf(anySlice(dj))
 			if err != nil {
 				return err
@@ -890,7 +936,7 @@ func init() {
 			if err != nil {
 				// a statement of the specification's language that the real reader refuses: recorded (the trace
 				// specification has no behaviour for it), not a failure of the driver
-				emit(map[string]any{"ev": "Match", "st": st.term(), "data": dj, "match": false, "partial": false, "panic": true, "rmatch": false, "rpartial": false,
+				emit(map[string]any{"ev": "Match", "st": st.term(), "data": dj, "match": false, "partial": false, "panic": true, "rmatch": false, "rpartial": false, "ematch": false, "epartial": false,
 					"note": "policy.FromIPLD refused the statement: " + err.Error()})
 				continue
 			}
@@ -900,8 +946,17 @@ func init() {
 				return err
 			}
 			rr := matchReal(pr, d)
-			emit(map[string]any{"ev": "Match", "st": st.term(), "data": dj, "match": r.match, "partial": r.partial, "panic": r.panicked != "" || rr.panicked != "",
-				"rmatch": rr.match, "rpartial": rr.partial})
+			re := r // L3: the same statement on the datum whose quantified list is visited in the opposite order
+			if djRev != nil {
+				dr, err := nodeOf(anySlice(djRev))
+				if err != nil {
+					return err
+				}
+				re = matchReal(p, dr)
+			}
+			emit(map[string]any{"ev": "Match", "st": st.term(), "data": dj, "match": r.match, "partial": r.partial,
+				"panic": r.panicked != "" || rr.panicked != "" || re.panicked != "",
+				"rmatch": rr.match, "rpartial": rr.partial, "ematch": re.match, "epartial": re.partial})
 		}
 		return nil
 	}
